@@ -4,7 +4,7 @@ CONSTANTS Tx = {"t1", "t2", "t3"}
           MAXTX = 2
           NC = 1
           NOPS = 0
-          ListLen = 2
+          ListLen = 1
           EmitOn = TRUE
 VIEW View
 INVARIANT PropC37
